@@ -70,6 +70,41 @@ func Build(t *amf0ref.Tree) amf0.Amf0 {
 	panic("amf0lib: bad kind")
 }
 
+// BuildTopDown constructs the same value as Build but attaches every container to its parent while it is
+// still empty and fills it afterwards (the order in which an application typically builds a message).
+func BuildTopDown(t *amf0ref.Tree) amf0.Amf0 {
+	v := shell(t)
+	fill(t, v)
+	return v
+}
+
+func shell(t *amf0ref.Tree) amf0.Amf0 {
+	switch t.Kind {
+	case amf0ref.Object:
+		return amf0.NewObject()
+	case amf0ref.EcmaArray:
+		return amf0.NewEcmaArray()
+	case amf0ref.StrictArray:
+		return amf0.NewStrictArray()
+	}
+	return Build(t)
+}
+
+func fill(t *amf0ref.Tree, v amf0.Amf0) {
+	for i, p := range t.Pairs {
+		child := shell(p.Val)
+		switch c := v.(type) {
+		case *amf0.Object:
+			c.Set(p.Key, child)
+		case *amf0.EcmaArray:
+			c.Set(p.Key, child)
+		case *amf0.StrictArray:
+			c.Set(StrictKey(i, len(t.Pairs)), child)
+		}
+		fill(p.Val, child)
+	}
+}
+
 // KeyOf is the key under which child i of t was Set by Build.
 func KeyOf(t *amf0ref.Tree, i int) string {
 	if t.Kind == amf0ref.StrictArray {
